@@ -146,11 +146,11 @@ class Check(PropertyCheck):
             else:
                 d = G.gen_compound(rng, rng.randint(1, 3),
                                    lambda: G.gen_simple(rng, kind=rng.choice(G.SIMPLE_KINDS + ['line', 'point']), scale=rng.choice([1.0, 5.0]), center_scale=10))
-            cases.append({'kind': d['kind'], 'region': d})
+            cases.append(G.add_history(rng, {'kind': d['kind'], 'region': d}))
         return cases
 
     def real(self, case):
-        reg = G.build(case['region'])
+        reg = G.build_case(case)
         out = {}
         try:
             b = reg.bounding_box
@@ -172,7 +172,7 @@ class Check(PropertyCheck):
         return out
 
     def requests(self, case):
-        reg = G.build(case['region'])
+        reg = G.build_case(case)
         return [{'op': 'region.bbox', 'region': G.model(case['region'], reg)}]
 
     def model(self, case, replies):
